@@ -38,7 +38,7 @@ def _buf(col):
 def frame_fingerprint(df):
     return (list(df.columns), [str(t) for t in df.dtypes], list(map(repr, df.index)),
             [tuple(map(repr, r)) for r in df.itertuples(index=False)],
-            [_buf(df[c]) if df[c].dtype != object else 0 for c in df.columns])
+            [_buf(df.iloc[:, i]) if df.iloc[:, i].dtype != object else 0 for i in range(df.shape[1])])
 
 
 def _work(args):
